@@ -171,6 +171,22 @@ def insertGroup (o : Obj) : List (String × List Obj) → List (String × List O
   | (u, g) :: rest => if o.uid < u then (o.uid, [o]) :: (u, g) :: rest
                       else if o.uid = u then (u, g ++ [o]) :: rest else (u, g) :: insertGroup o rest
 
+/-- `get_safe_free_hrefs` of `_upload_all_nonatomic`: the UID itself (with the suffix unless it already ends
+    with it, case-insensitively); if that name is taken, the hash of the UID ("#H(uid)" stands for the hex
+    digest, perfect hash); if that is taken too, a random name -/
+def bulkHref (suffix uid : String) (taken : List String) : String :=
+  let h1 := if uid.toLower.endsWith suffix then uid else uid ++ suffix
+  if !taken.contains h1 then h1
+  else
+    let h2 := "#H(" ++ uid ++ ")" ++ suffix
+    if !taken.contains h2 then h2 else "#R" ++ suffix
+
+def assignHrefs (suffix : String) : List Item → List String → List (String × Item)
+  | [], _ => []
+  | it :: rest, taken =>
+    let h := bulkHref suffix it.uid taken
+    (h, it) :: assignHrefs suffix rest (h :: taken)
+
 /-- a whole collection: tag, and the members (href ↦ item); bulk content ids are offset so that the
     re-serialised member differs from the same object uploaded alone -/
 def asCollection (b : Body) : Option (Tag × List (String × Item)) :=
@@ -178,11 +194,12 @@ def asCollection (b : Body) : Option (Tag × List (String × Item)) :=
   | .cal objs =>
     if objs.all (fun o => o.uid != "" && o.kind != .card) && (objs.map (·.uid)).Nodup then
       let groups := objs.foldl (fun acc o => insertGroup o acc) []
-      some (.cal, groups.map (fun (u, g) => (u ++ ".ics", (⟨u, (g.head?.map (·.kind)).getD .event, 1000000 + groupCid g⟩ : Item))))
+      let items := groups.map (fun (u, g) => (⟨u, (g.head?.map (·.kind)).getD .event, 1000000 + groupCid g⟩ : Item))
+      some (.cal, (assignHrefs ".ics" items []).foldl (fun acc e => insertSorted e.1 e.2 acc) [])
     else none
   | .cards objs =>
     if objs ≠ [] && objs.all (fun o => o.uid != "" && o.kind == .card) && (objs.map (·.uid)).Nodup then
-      some (.book, (objs.map (fun o => (o.uid ++ ".vcf", (⟨o.uid, .card, o.cid⟩ : Item))))
+      some (.book, (assignHrefs ".vcf" (objs.map (fun o => (⟨o.uid, .card, o.cid⟩ : Item))) [])
                      |>.foldl (fun acc e => insertSorted e.1 e.2 acc) [])
     else none
   | .unparsable => none
@@ -428,26 +445,30 @@ def propfindU (cfg : Cfg) (rights : Rights) (user : String) (s : Store) (p : Pat
             else []
           ({ status := 207, entries := self ++ members }, none)
 
+/-- the multiget answer once the collection is settled (`xml_report` + `retrieve_items`) -/
+def multigetOn (rights : Rights) (user : String) (cp : Path) (c : Coll) (hrefs : List Path) (book : Bool) : Resp × Option Update :=
+  if c.tag = .none || (c.tag = .cal && book) || (c.tag = .book && !book) then ({ status := 403 }, none)
+  else
+    let es := hrefs.eraseDups.map (fun h =>
+      if h.dropLast = cp then
+        match item? c (h.getLast?.getD "") with
+        | some it => if mayShowItem rights user cp then Entry.item h it.cid else Entry.missing h
+        | none => Entry.missing h
+      else Entry.missing h)
+    ({ status := 207, entries := es }, none)
+
+/-- REPORT (multiget); on the path of an item the report runs on the item's collection -/
 def multigetU (cfg : Cfg) (rights : Rights) (user : String) (s : Store) (p : Path) (hrefs : List Path) (book : Bool) : Resp × Option Update :=
     if !check rights user p 'r' .nothing then (forbiddenNA, none)
     else match resolve s p with
       | .absent => ({ status := 404 }, none)
-      | .item .. => ({ status := 403 }, none)
+      | .item pp c _ _ =>
+        if !check rights user p 'r' .anItem then (forbiddenNA, none)
+        else multigetOn rights user pp c hrefs book
       | .coll _ c =>
         let subj := if c.tag = .none then Subject.collPlain else .collTagged
         if !check rights user p 'r' subj then (forbiddenNA, none)
-        else if c.tag = .none || (c.tag = .cal && book) || (c.tag = .book && !book) then ({ status := 403 }, none)
-        else
-          let es := hrefs.eraseDups.map (fun h =>
-            if h.dropLast = p then
-              match item? c (h.getLast?.getD "") with
-              | some it => if mayShowItem rights user p then Entry.item h it.cid else Entry.missing h
-              | none => Entry.missing h
-            else Entry.missing h)
-          ({ status := 207, entries := es }, none)
-
-
-
+        else multigetOn rights user p c hrefs book
 
 def handleU (cfg : Cfg) (rights : Rights) (user : String) (s : Store) : Req → Resp × Option Update
   | .mkcol p tag props badBody => mkcolU cfg rights user s p tag props badBody
